@@ -41,12 +41,18 @@ type mode struct {
 	// Mount: the (plain-HTTP) publisher is served under this URL path prefix
 	// of its host and named by an address with an http-path component
 	Mount string
+	// Retry: the subscriber uses the retrying HTTP client (one retry): a fault
+	// that a retry overcomes is masked, everything else is as without it
+	Retry bool
 }
 
 func (m mode) String() string {
 	s := fmt.Sprintf("disc=%v,addrs2=%v,%s,seg=%d,presync=%v,L=%d", m.Discovery, m.TwoAddrs, m.Kind, m.Seg, m.Presync, m.L)
 	if m.Mount != "" {
 		s += ",mounted-at=/" + m.Mount
+	}
+	if m.Retry {
+		s += ",retrying-client"
 	}
 	return s
 }
@@ -113,6 +119,9 @@ func newRunner(m mode) *runner {
 	}
 	ch := syncfx.BuildAdChain(p.Src, id, m.L, syncfx.DefaultProto, "c04")
 	opts := []dagsync.Option{dagsync.SegmentDepthLimit(m.Seg)}
+	if m.Retry {
+		opts = append(opts, dagsync.RetryableHTTPClient(1, time.Millisecond, 2*time.Millisecond))
+	}
 	if m.Kind == "announce" {
 		opts = append(opts, dagsync.RecvAnnounce("", announce.WithAllowPeer(func(peer.ID) bool { return true })))
 	}
@@ -261,7 +270,7 @@ func ints(l []int) string { return strings.Trim(fmt.Sprint(l), "[]") }
 
 func TestCheck(t *testing.T) {
 	r := vp.New("C04", "fault_enumeration",
-		"modes: {libp2p-HTTP discovery, plain HTTP, plain HTTP served under a URL path prefix and named by an http-path address} x {1, 2 addresses} x {explicit sync with queried head, with explicit head, announce-triggered} x {unsegmented, segment size 1, 2} x {nothing synced before, part of the chain synced before} on a chain of L advertisements. For each mode a fault-free reference run fixes the request positions; then every fault kind (HTTP 400/403/404/500/503, connection closed, declared length longer than body, corrupt body, substituted body, empty body, stalled response, caller cancellation during a request, hook failure per block in segmented mode (FailSync alone, and FailSync followed by SetNextSyncCid(cid.Undef)), caller cancellation from inside each block-hook call i.e. between requests and between segments, an address for which no client can be created) at every position, singly, in pairs over a reduced kind set (quick: 404 / 403 / 500 / connection closed / unusable address) and over the larger kind set (thorough), within one attempt and across attempt and retry, each followed by a fault-free retry on the same subscriber. Non-trivial: every faulted run. Distinct = distinct (mode, fault script).",
+		"modes: {libp2p-HTTP discovery, plain HTTP, plain HTTP served under a URL path prefix and named by an http-path address} x {plain / retrying HTTP client (RetryableHTTPClient, one retry)} x {1, 2 addresses} x {explicit sync with queried head, with explicit head, announce-triggered} x {unsegmented, segment size 1, 2} x {nothing synced before, part of the chain synced before} on a chain of L advertisements. For each mode a fault-free reference run fixes the request positions; then every fault kind (HTTP 400/403/404/500/503, connection closed, declared length longer than body, corrupt body, substituted body, empty body, stalled response, caller cancellation during a request, hook failure per block in segmented mode (FailSync alone, and FailSync followed by SetNextSyncCid(cid.Undef)), caller cancellation from inside each block-hook call i.e. between requests and between segments, an address for which no client can be created) at every position, singly, in pairs over a reduced kind set (quick: 404 / 403 / 500 / connection closed / unusable address) and over the larger kind set (thorough), within one attempt and across attempt and retry, each followed by a fault-free retry on the same subscriber. Non-trivial: every faulted run. Distinct = distinct (mode, fault script).",
 		"stalled responses and time-outs run in virtual time inside a synctest bubble; the horizon for 'no event will come' is 30 virtual minutes",
 		"a fault that the client masks (address fail-over, legacy path fallback) must leave all observations equal to the fault-free reference",
 		"the stream-reset retry branch needs a libp2p stream transport and is not driven",
@@ -289,6 +298,12 @@ func TestCheck(t *testing.T) {
 					}
 				}
 			}
+		}
+	}
+	// the retrying HTTP client (one retry), both transports
+	for _, disc := range []bool{true, false} {
+		for _, kind := range []string{"queried", "announce"} {
+			modes = append(modes, mode{Discovery: disc, Kind: kind, Seg: -1, L: L, Retry: true})
 		}
 	}
 	// a plain-HTTP publisher served under a URL path prefix
@@ -472,6 +487,7 @@ func oneScript(t *testing.T, r *vp.Recorder, m mode, ref result, s1, s2 []fault)
 		}
 		reported := map[int]bool{}
 		alreadySynced := false // an earlier attempt synced the head (non-explicit kinds): nothing is left to do
+		var injected []fault   // the faults of the attempt being judged
 		checkAttempt := func(name string, res result, faulted bool) (ok bool) {
 			if res.panicked != "" {
 				report("panic", name+": "+firstLine(res.panicked))
@@ -515,6 +531,14 @@ func oneScript(t *testing.T, r *vp.Recorder, m mode, ref result, s1, s2 []fault)
 				}
 				return true
 			}
+			// a failure signalled by the block hook is never masked: once the
+			// failing hook call has happened the sync has to report an error
+			for _, f := range injected {
+				if (f.Kind == "hook-fail" || f.Kind == "hook-fail-and-stop") && len(res.hooks) > f.At.N {
+					report("sync-succeeded-although-its-block-hook-failed-it", fmt.Sprintf("%s: hook call %d signalled a failure (FailSync), %d hook calls happened, and the sync reported success", name, f.At.N, len(res.hooks)))
+					return false
+				}
+			}
 			// reported success: everything must equal the reference
 			r.Outcome("masked-or-ok")
 			if alreadySynced {
@@ -539,6 +563,7 @@ func oneScript(t *testing.T, r *vp.Recorder, m mode, ref result, s1, s2 []fault)
 			return true
 		}
 		res1 := rn.attempt(head, s1)
+		injected = s1
 		if !checkAttempt("faulted sync", res1, true) {
 			return
 		}
@@ -547,6 +572,7 @@ func oneScript(t *testing.T, r *vp.Recorder, m mode, ref result, s1, s2 []fault)
 		alreadySynced = done && m.Kind != "explicit"
 		if len(s2) != 0 {
 			res2 := rn.attempt(head, s2)
+			injected = s2
 			if !checkAttempt("faulted retry", res2, true) {
 				return
 			}
@@ -581,6 +607,7 @@ func oneScript(t *testing.T, r *vp.Recorder, m mode, ref result, s1, s2 []fault)
 				report("retry-failed", fmt.Sprintf("fault-free retry after [%s][%s] failed: %v (requests %v)", fstr(s1), fstr(s2), resN.err, resN.reqs))
 				return
 			}
+			injected = nil
 			if !checkAttempt("fault-free retry", resN, false) {
 				return
 			}
